@@ -27,15 +27,16 @@ TEXT = {
         "technique": "Lean 4 proof (induction over the text relating the line table to a scan) + correspondence",
     },
     "C12": {
-        "level": "Lean 4 theorems for every byte string about a statement-for-statement model of split.go running on the lexer model: the splitter "
-                 "fails iff the lexer does, with the same error; on success the pieces are never empty as a list, carry exactly input[Pos:End], "
-                 "are in range, ordered and at least the separator apart; no runtime panic, termination. Partial: the token-level partition clauses "
-                 "are not proved; they are evaluated on the Go splitter against the Go token stream (token soups with ';' inside literals and comments, "
-                 "joined corpus statements) and the model is tied to the code by the SPLIT channel.",
+        "level": "Lean 4 theorems for every byte string about a statement-for-statement model of split.go running on the lexer model, full strength: the "
+                 "splitter fails iff the lexer does, with the same error; the pieces are exactly those determined by the token stream (cut at every ';' token; "
+                 "`pieces_from_tokens`); each piece carries input[Pos:End], is in range, pieces are ordered; no piece contains a ';' token; every other token and "
+                 "every comment lies in exactly one piece; between consecutive pieces there is exactly one token, a ';', followed by whitespace runes only; after "
+                 "the last piece nothing or one ';' plus whitespace; no runtime panic; termination. Semicolons inside literals and comments never split because such "
+                 "a ';' is inside a token or comment (C13 tiling). The model is tied to the Go code by the SPLIT and LEX channels; the predicate re-checks all "
+                 "clauses on the Go splitter against the Go token stream.",
         "design_ref": "DESIGN.md §4 C12",
-        "note": "Trusted: Lean kernel + standard axioms; models of split.go and lexer.go validated by SPLIT/LEX on explored inputs; partition clauses "
-                "checked on the implementation only.",
-        "technique": "Lean 4 proof (loop invariant, simulation of the lexer's token stream) + correspondence",
+        "note": "Trusted: Lean kernel + standard axioms; models of split.go and lexer.go validated by SPLIT/LEX on explored inputs.",
+        "technique": "Lean 4 proof (loop invariant; refinement of the loop to a fold over the token list; list reasoning) + correspondence",
     },
     "C03": {
         "level": "Lean 4 theorems for every byte string and both lexer modes: the lexer never hits a Go runtime panic (every index/slice is a partial "
